@@ -32,9 +32,10 @@ COMPONENTS = {
     "stub": ["websocket transport", "LMDB engine (fake)", "threads (actors)"],
 }
 ASSUMPTIONS = [
-    "must-receive = subscription definitely open from before the EVENT command was delivered until "
-    "after it was fully handled, on a connection still alive at quiescence, filter matching strictly "
-    "inside its time window; everything not provably open or closed is 'may'",
+    "must-receive = subscription definitely open from before the EVENT command was delivered and never "
+    "closed, replaced or disconnected afterwards (a push still queued when the subscription ends is dropped: "
+    "'no closed subscription receives it', and C13's 'after CLOSE no further event is sent'), filter matching "
+    "strictly inside its time window; everything not provably open or closed is 'may'",
     "filters without any condition and events matching only through a NIP-26 delegation tag are not "
     "generated here (listed known findings of C02)",
 ]
@@ -253,7 +254,9 @@ def run(case, sim):
                 if E["t0"] > S["end_hi"]:
                     why.append("after-end")
                     continue
-                definitely = S["reg_hi"] <= E["t0"] and E["t1"] <= S["end_lo"] and S["alive"] and k_strict > 0
+                # (a subscription that is closed or replaced later may lose a push that was still queued for
+                #  it: after CLOSE nothing more is sent for it - C13 - so only one that stays open is owed it)
+                definitely = S["reg_hi"] <= E["t0"] and S["end_lo"] == INF and S["alive"] and k_strict > 0
                 if definitely:
                     lo += 1
                     hi += 1 + (k_incl if S["eose"] > E["t0"] else 0)
@@ -307,8 +310,8 @@ def run(case, sim):
             ev = E["ev"]
             if E["ok"] is not True or model.is_ephemeral(ev["kind"]) or eid not in final:
                 continue
-            if not (S["reg_hi"] <= E["t0"] and E["t1"] <= S["end_lo"]):
-                continue
+            if not (S["reg_hi"] <= E["t0"] and S["end_lo"] == INF):
+                continue        # (observed pushes stand for the live matcher only while nothing can drop them)
             if model.matches(ev, f, "inclusive") != model.matches(ev, f, "strict"):
                 continue        # boundary timestamps excepted
             if model.matches(ev, f, "strict") != model.matches(ev, f, "inclusive", bare_as_empty=True):
